@@ -138,7 +138,7 @@ def job_dump(job, P, ADE):
     n = 0
     nontrivial = 0
     counts = {}
-    bad, drift, samples = [], [], []
+    bad, drift, samples, oks, rejs = [], [], [], [], []
     rss0 = maxrss()
     for st in D.read_dump(job["path"], job["start"], job["end"]):
         idx = n
@@ -186,11 +186,20 @@ def job_dump(job, P, ADE):
                             "cout": bytes(st["cout"]).hex()})
             else:
                 counts["bad-not-listed"] = counts.get("bad-not-listed", 0) + 1
+        if job.get("third") and len(delta) >= 4 and st["why"] not in ("header", "src-size"):
+            # material for the comparison of the reference decoder with C git (parent's business)
+            if st["st"] == "ok":
+                if len(oks) < 20000:
+                    oks.append([st["bi"], delta.hex(), bytes(st["rout"]).hex()])
+            elif idx % job["third"] == 0 and len(rejs) < 400:
+                rejs.append([st["bi"], delta.hex(), st["why"]])
+        if rec:
+            pass
         elif st["st"] == "ok" and len(samples) < 3 and len(delta) >= 4:
             samples.append({"base": base.hex(), "delta": delta.hex(), "out": out.hex() if out is not None else None})
     os.pwrite(prog, b"%12d" % n, 0)
     os.close(prog)
-    return {"n": n, "skip": skip, "nontrivial": nontrivial, "counts": counts, "bad": bad, "drift": drift[:50], "ndrift": len(drift), "samples": samples,
+    return {"n": n, "skip": skip, "nontrivial": nontrivial, "counts": counts, "bad": bad, "drift": drift[:50], "ndrift": len(drift), "samples": samples, "oks": oks, "rejs": rejs,
             "rss_kb": maxrss() - rss0}
 
 
